@@ -83,17 +83,17 @@ CHECKS = {
  "C16": dict(
   technique="TLC model checking of HttpServer.tla (framing, routing, scrape merge) + linearizability trace validation of running trackers",
   level="model_checking", ref="5 C16",
-  text="HttpServer.tla models request assembly across segments, routing by hash to swarm workers, scrape fan-out/merge, the re-used Content-Length digit field and keep-alive; TLC checks WellFramed, InOrder, WorkersInvisible, Isolation for 1-3 swarm workers and rejects the per-worker-truncation and stale-digit variants; running trackers (socket x swarm workers, keep-alive on/off) are driven by concurrent connections with requests split at byte offsets, and TLC infers a linearization that explains every reply.",
+  text="HttpServer.tla models request assembly across segments, routing by hash to swarm workers, scrape fan-out/merge, the re-used Content-Length digit field and keep-alive; TLC checks WellFramed, InOrder, WorkersInvisible, Isolation for 1-3 swarm workers and rejects the per-worker-truncation and stale-digit variants; running trackers (socket x swarm workers, keep-alive on/off) are driven by concurrent connections with requests split at byte offsets, and TLC infers a linearization that explains every reply. One configuration (three in the thorough tier) runs the same scenario over TLS.",
   note="Pipelining and TLS are outside the statement/exercise; multi-hash scrapes are issued at quiescence. " + TB),
  "C17": dict(
   technique="TLC model checking of WsServer.tla (meshes, routing by worker and slot key, close) and WsSwarm.tla + black-box trace validation of running trackers",
   level="model_checking", ref="5 C17",
-  text="WsServer.tla models socket workers with colliding slot keys, swarm workers and the three meshes as independent FIFO queues; TLC checks DeliveredOnlyToAddressee and ClosedLeavesNothing (for closes with no announce in flight), rejects routing by slot key only, and exhibits the close-overtakes-announce race when closes are unrestricted. Running trackers (socket x swarm workers, dual-stack listener) are driven by several WebSocket clients one operation at a time; every frame received by any client is logged with the connection it arrived on and validated by TLC against the reference semantics of C08/C09 (addressing, replies, refusals, closed connections leave nothing).",
+  text="WsServer.tla models socket workers with colliding slot keys, swarm workers and the three meshes as independent FIFO queues; TLC checks DeliveredOnlyToAddressee and ClosedLeavesNothing (for closes with no announce in flight), rejects routing by slot key only, and exhibits the close-overtakes-announce race when closes are unrestricted. Running trackers (socket x swarm workers, dual-stack listener) are driven by several WebSocket clients one operation at a time; every frame received by any client is logged with the connection it arrived on and validated by TLC against the reference semantics of C08/C09 (addressing, replies, refusals, closed connections leave nothing). One configuration runs over TLS, and a connection closed by the tracker after a TLS certificate update (grace period) must leave no peers either.",
   note="Operations are sequential (settle window); the in-flight race is explored on the model only; which socket worker accepts a connection is not observed. Known finding: refusal error frame not delivered. " + TB),
  "C18": dict(
   technique="TLC evaluation of Buffers.tla (size functions against mirrored buffer constants, boundary search) + delivery/size binding on running trackers",
   level="model_checking", ref="5 C18",
-  text="Buffers.tla computes BEP 15 and bencode/HTTP reply and request sizes against the fixed buffers and finds every boundary; TLC prints the grid (defaults, both sides of each boundary, extremes) and the verdict Fits; at each grid point a real tracker is configured, the worst-case swarm built and the worst-case request sent; TLC validates that delivery and reply size are exactly what the model computes. Accepted configurations whose worst-case request is not delivered are reported (all currently listed as known findings with their exact boundary).",
+  text="Buffers.tla computes BEP 15 and bencode/HTTP reply and request sizes against the fixed buffers and finds every boundary; TLC prints the grid (defaults, both sides of each boundary, extremes) and the verdict Fits; at each grid point a real tracker is configured, the worst-case swarm built and the worst-case request sent; TLC validates that delivery and reply size are exactly what the model computes. Accepted configurations whose worst-case request is not delivered are reported (all currently listed as known findings with their exact boundary). Exact-fit probes (the HTTP announce reply that fills the response buffer to the last byte, computed by Buffers_MC) and overfull probes (swarm or scrape larger than the limit under test) must be delivered too.",
   note="TLC evaluates a size model over a finite grid (no behaviour search). HTTP scrapes longer than the request buffer are outside the quantifier. " + TB),
  "C19": dict(
   technique="TLC model checking of Watchdog.tla + fault enumeration on real tracker processes validated by TLC",
